@@ -7,6 +7,8 @@ Property theorems only. Models: Model/Encoding.lean (whole-buffer decoders), Mod
 import WrglModel.Model.Encoding
 import WrglModel.Model.Chunked
 import WrglModel.Lemmas.C17
+import WrglModel.Lemmas.C17Index
+import WrglModel.Gen.Facts
 namespace Wrgl
 
 /-- On ANY byte string the modelled decoders return a value or an error: never a panic, never an
@@ -34,5 +36,20 @@ theorem C17_output_bounded_by_input (b : Bytes) :
     (∀ v objs, packfileFlat b = .ok (v, objs) → 8 + 2 * objs.length + (objs.map (fun o => o.2.length)).sum ≤ b.length) :=
   ⟨fun r rest h => strListRead_size_eq b r rest h, fun rows rest h => blockDecode_size_eq b rows rest h,
    fun v objs h => packfileFlat_size b v objs h⟩
+
+/-- tie to the source: `IndexTable` compares the key indices and every row's width with the table's
+    column list before it indexes rows by key position -/
+theorem C17_fact_indexTableChecks : Facts.indexTableChecksKeyAndWidth = true := by decide
+
+/-- A received table object that misdescribes its blocks (a key position beyond the row width, rows
+    of another width, an empty block) is refused with an error: the receiver's indexing never goes
+    out of range. -/
+theorem C17_indexTable_never_panics (cols : Row) (pk : List Nat) (blocks : List (List Row)) (p : String) :
+    indexTable Facts.indexTableChecksKeyAndWidth cols pk blocks ≠ .panic p := by
+  rw [C17_fact_indexTableChecks]; exact indexTable_no_panic cols pk blocks p
+
+/-- … which is what the unchecked version did (the repaired defect, c77b6c0). -/
+theorem C17_indexTable_unchecked_panics :
+    indexTable false [[97]] [3] [[[[48]]]] = .panic "index out of range" := indexTable_unchecked_panics
 
 end Wrgl
